@@ -840,6 +840,8 @@ def _common(ck, ctor, num_kw, payload_kw, reads, counter, sniff_total=True):
         helpers = [q for q, f in ck.mod.functions.items() if isinstance(f, ast.FunctionDef) and q != ck.real and "." not in q and role(f)]
         for hname in helpers:
             hs = _helper_style(ck, hname)
+            if hs is not None and not (hs["img"] is not None and hs["number_ok"]):
+                hs = None        # the helper is merely a constructor wrapper: the inlined function is analysed in the ordinary way
             if hs is not None:
                 ck.counter = hs["counter"]
                 _helper_style_obligations(ck, hs, hname, ("number-is-the-counter-after-its-increment", "one-increment-per-numbered-image", None))
